@@ -1873,11 +1873,16 @@ def _guard_holds(fx, fn, guard):
 
 
 def rule_wrap(ctx):
+    """W1 + W2.  (C05 only needs `rule_wrap_w1`, C11 only `rule_wrap_w2`.)"""
+    rule_wrap_w1(ctx)
+    return rule_wrap_w2(ctx)
+
+
+def rule_wrap_w1(ctx):
+    """W1: angular right-hand sides that are differences of directions are reduced to the half circle."""
     rule = "R-WRAP"
-    fx = ctx.facts
     M = lin_model(ctx)
     T = table()
-    # ---- W1: angular right-hand sides that are differences of directions are reduced to the half circle
     exempt = T["w1_exempt"]
     n_w1 = 0
     for t in sorted(M.models):
@@ -1911,7 +1916,13 @@ def rule_wrap(ctx):
                    "assignment: derivable range is [%g, %g]" % (half, half, worst[0], worst[1]),
                    detail={"half_circle_cc": half})
     ctx.floor(rule, 3, n_w1, "angular difference-of-directions handlers")
-    # ---- W2: wrap-by-repeated-subtraction sites, classified in the table
+
+
+def rule_wrap_w2(ctx):
+    """W2: wrap-by-repeated-subtraction sites of lib/, classified in tables/lin.json (w2_sites)."""
+    rule = "R-WRAP"
+    fx = ctx.facts
+    T = table()
     sites = wrap_sites(fx)
     tab = T["w2_sites"]
     seen = set()
